@@ -74,7 +74,15 @@ def load_findings(pid):
         return []
     with open(path) as f:
         data = json.load(f)
-    return [e for e in data.get("findings", []) if e.get("property") == pid]
+    out = []
+    for e in data.get("findings", []):
+        if e.get("property") == pid or pid in e.get("also", []):
+            e = dict(e)
+            r = (e.get("replays") or {}).get(pid)
+            if r:
+                e["replay"], e["test"] = r["file"], r["test"]
+            out.append(e)
+    return out
 
 
 def run_proc(cmd, env, cwd, limit):
@@ -93,7 +101,7 @@ def run_proc(cmd, env, cwd, limit):
 
 
 def shard_job(pid, binp, test, idx, seed, checks, tier, known_ids, workroot, limit, extra_env, replay_dir):
-    wd = os.path.join(workroot, "%s-%d" % (test["name"], idx))
+    wd = os.path.join(workroot, "%s-%d" % (test.get("label", test["name"]), idx))
     shutil.rmtree(wd, ignore_errors=True)
     os.makedirs(wd)
     env = goenv()
@@ -117,7 +125,7 @@ def shard_job(pid, binp, test, idx, seed, checks, tier, known_ids, workroot, lim
         cmd += ["-rapid.checks=%d" % checks, "-rapid.seed=%d" % seed, "-rapid.nofailfile",
                 "-rapid.shrinktime=%s" % test.get("shrinktime", "20s")]
     rc, out, wall, timed_out = run_proc(cmd, env, wd, limit)
-    return {"test": test["name"], "idx": idx, "seed": seed, "rc": rc, "out": out, "wall": wall,
+    return {"test": test["name"], "label": test.get("label", test["name"]), "mode": test.get("mode", "rapid"), "idx": idx, "seed": seed, "rc": rc, "out": out, "wall": wall,
             "timed_out": timed_out, "wd": wd, "checks": checks}
 
 
@@ -278,7 +286,7 @@ def main():
         limit = test.get("limit", {}).get(tier, 900 if tier == "quick" else 3600)
         extra = dict(test.get("env", {}))
         for idx in range(shards):
-            s = splitmix(seed, pid, test["name"], idx)
+            s = splitmix(seed, pid, test.get("label", test["name"]), idx)
             jobs.append((test, idx, s, checks, limit, extra))
     results = []
     maxw = min(NPROC, cfg.get("max_workers", NPROC))
@@ -293,14 +301,13 @@ def main():
         kind, info = triage(pid, res, replay_dir)
         m = PASSED_RE.findall(res["out"])
         done = int(m[-1]) if m else None
-        per_shard.append({"test": res["test"], "shard": res["idx"], "seed": res["seed"], "verdict": kind,
+        per_shard.append({"test": res["label"], "shard": res["idx"], "seed": res["seed"], "verdict": kind,
                           "wall_s": round(res["wall"], 2), "requested": res["checks"], "passed": done})
         if kind == "violation":
             violations.append(info)
         elif kind == "inconclusive":
             inconclusive.append((res, info))
-        elif kind == "pass" and done is not None and done < res["checks"] and \
-                next(t for t in cfg["tests"] if t["name"] == res["test"]).get("mode", "rapid") == "rapid":
+        elif kind == "pass" and done is not None and done < res["checks"] and res["mode"] == "rapid":
             inconclusive.append((res, {"why": "rapid stopped at %d of %d cases" % (done, res["checks"])}))
 
     # ---- 3. evidence ---------------------------------------------------------
